@@ -335,6 +335,25 @@ def dict_laws(cx, line, reply, balanced):
         cx.notes.append("generator bug: unbalanced history marked balanced")
 
 
+def locate_leak(cx, lines, ri):
+    """the harness asks LeakSanitizer every 64th history; on a report re-run that window with a check after every history"""
+    for k, l in enumerate(lines):
+        if "LEAK" in ri.get(l.split()[0], []):
+            win = lines[max(0, k - 63):k + 1]
+            rr = cx.run_impl(HARNESS, win, env={"VP_LEAK_EVERY": "1"}, crash_is_failure=False, component="ht")
+            for w in win:
+                if "LEAK" in rr.get(w.split()[0], []):
+                    ri[w.split()[0]] = rr[w.split()[0]]          # the laws below report it with this history as the failing input
+                    break
+            else:
+                cx.fail("ht", "LeakSanitizer reports a leak after a window of histories; not reproduced on the window alone", {"line": l[:3000]})
+            for x in lines:                                       # a leak persists: later periodic reports are the same one
+                r = ri.get(x.split()[0])
+                if r and x is not w and "LEAK" in r:
+                    ri[x.split()[0]] = [t for t in r if t != "LEAK"]
+            return
+
+
 def corpus_lines():
     d = os.path.join(paths.CORPUS, "ht")
     out = []
@@ -353,7 +372,7 @@ def run_ht(cx):
     cases += corpus_lines()
     cases += list(resize_walks())
     cases += list(exhaustive_hist(cx.n(2, 3)))
-    for _ in range(cx.n(700, 12000)):
+    for _ in range(cx.n(2500, 20000)):
         cases.append(gen_hist(rng, rng.choice([5, 20, 60, 150, 400])))
     for s in ("-", "00", "61", "6162", "ff", "80", "c3a9", "6465736372697074696f6e"):
         cases.append("hash " + s)
@@ -368,7 +387,7 @@ def run_ht(cx):
     for l in exhaustive_dict(cx.n(3, 4)):
         dict_cases.append((l.replace("dict ", dop, 1), False))
     dict_cases += [(l.replace("dict ", dop, 1), b) for l, b in dict_walks()]
-    for _ in range(cx.n(500, 8000)):
+    for _ in range(cx.n(1500, 12000)):
         dict_cases.append(gen_dict(rng, rng.choice([6, 25, 80, 200, 600]), rng.random() < 0.7, fixed))
     cases = list(dict.fromkeys(cases))
     dseen, dc = set(), []
@@ -390,7 +409,9 @@ def run_ht(cx):
         n = len(t[-1].split(","))
         return "ht:%s:%s:%s" % (t[2], "ok" if reply[0] == "ok" else reply[1], "<=10" if n <= 10 else "<=100" if n <= 100 else ">100")
 
-    ri, rm = cx.differential("ht", lines + dlines, HARNESS, kind=kind)
+    noleak = lambda r: [x for x in r if x != "LEAK"]
+    ri, rm = cx.differential("ht", lines + dlines, HARNESS, kind=kind, canon=noleak)
+    locate_leak(cx, lines + dlines, ri)
     nops = 0
     for l in lines:
         t = l.split()
